@@ -41,7 +41,7 @@ C12Scn ==
       d \in {x \in C12DstStates : C12Consistent(x)}, t \in BOOLEAN, c \in BOOLEAN, I \in BOOLEAN }
 
 (* =================================================================== C10 *)
-(* Universe = <<".", "d", "d/f", "f", "l", "s">>: every entry type in every  *)
+(* Universe = <<".", "d", "d/f", "f", "l", "s", "x", "x/f", "y">>: every entry type in every *)
 (* update situation, all option subsets, with and without -n                *)
 C10Src == With(With(With(With(With(EmptyFs, "d", Dir(493)), "d/f", Reg(1, 20, 1000, 0, 420)),
                "f", Reg(2, 30, 1000, 0, 420)), "l", Lnk("f")), "s", Spc("fifo", 420))
@@ -52,8 +52,10 @@ Situations(p) ==
     [] src.t = "lnk" -> {Absent, src, Lnk("other"), Reg(9, 5, 999, 0, 420)}
     [] OTHER -> {Absent, src, Reg(9, 5, 999, 0, 420)}
 (* destination = the source tree with ONE subject path put into a situation *)
+(* ... plus entries the sender does not list (a directory with content and a *)
+(* file), so that --delete has something to remove                          *)
 C10Dst(p, sit) ==
-  LET base == With(C10Src, p, sit)
+  LET base == With(With(With(With(C10Src, p, sit), "x", Dir(493)), "x/f", Reg(7, 4, 999, 0, 420)), "y", Reg(8, 6, 999, 0, 420))
   IN IF p = "d" /\ sit.t # "dir" THEN With(base, "d/f", Absent) ELSE base
 C10Scn ==
   { Scn(C10Dst(p, sit), ListOf(C10Src), O(TRUE, l, pp, t, D, c, FALSE, n, del), 0, {}) :
@@ -62,10 +64,11 @@ C10Scn ==
 C10Valid(s) == \E p \in {"d", "d/f", "f", "l", "s"} : \E sit \in Situations(p) : s.fs0 = C10Dst(p, sit)
 
 (* =================================================================== C09 *)
-(* Universe = <<".", "a", "b", "c", "d", "d/a", "d/b", "e", "e/a">>          *)
+(* Universe = <<".", "a", "ab", "b", "c", "d", "d/a", "d/b", "e", "e/a">> ("a" is a  *)
+(* strict prefix of "ab"; the quick universe drops "c", "d/b", "e/a")             *)
 C09File(p) == Reg(IdxOf(p), 3 + IdxOf(p), 1000, 0, 420)
-C09Top == {"a", "b", "c"} \cap Paths
-C09Sub == {"d/a", "d/b"}
+C09Top == {"a", "ab", "b", "c"} \cap Paths
+C09Sub == {"d/a", "d/b"} \cap Paths
 (* trees: any subset of the top-level files, d absent or with any subset of  *)
 (* its children, e absent / empty / with e/a; extraneous entries take other  *)
 (* types by position (b: symlink, c: fifo) when `odd`                        *)
@@ -81,7 +84,8 @@ C09Trees(withE, odd) ==
        ELSE IF p = "e/a" THEN (IF e = 2 THEN C09File(p) ELSE Absent)
        ELSE Absent] :
      tops \in SUBSET C09Top, hasD \in BOOLEAN, dsub \in SUBSET C09Sub, e \in (IF withE THEN (IF "e/a" \in Paths THEN 0..2 ELSE 0..1) ELSE {0}) }
-C09Modes == { <<TRUE, 0>>, <<TRUE, 1>>, <<FALSE, 0>> }      \* <<--delete, sender io error>>
+C09Modes == IF "c" \in Paths THEN { <<TRUE, 0>>, <<TRUE, 1>>, <<TRUE, 2>>, <<FALSE, 0>> }      \* <<--delete, sender io-error word>>
+            ELSE { <<TRUE, 0>>, <<TRUE, 2>>, <<FALSE, 0>> }
 C09Scn ==
   { Scn(dst, ListOf(src), O(TRUE, TRUE, FALSE, TRUE, TRUE, FALSE, FALSE, FALSE, m[1]), m[2], {}) :
       src \in C09Trees(FALSE, FALSE), dst \in C09Trees(TRUE, TRUE), m \in C09Modes }
